@@ -177,16 +177,26 @@ def import_rules(run, R, module, repo, want, tier="quick", only=None):
     global _IMPORT_DEPTH
     if _IMPORT_DEPTH > 0:
         return None             # imports are not transitive (and must not recurse)
-    sub = type(run)(run.prop, tier, write=False, known={"findings": [], "fixed": []})
-    _IMPORT_DEPTH += 1
-    try:
-        module.run(repo, sub, tier)
-    except AnalysisError as e:
-        # fail closed, but let violations this check has found itself be reported first (see finish)
-        run.deferred_errors.append("imported rules %s: %s" % (sorted(want), e))
-        return None
-    finally:
-        _IMPORT_DEPTH -= 1
+    cache = run.__dict__.setdefault("_import_cache", {})
+    key = (module.__name__, tier)
+    if key in cache:
+        sub = cache[key]          # one scratch run per imported property and importing run
+        if isinstance(sub, AnalysisError):
+            run.deferred_errors.append("imported rules %s: %s" % (sorted(want), sub))
+            return None
+    else:
+        sub = type(run)(run.prop, tier, write=False, known={"findings": [], "fixed": []})
+        _IMPORT_DEPTH += 1
+        try:
+            module.run(repo, sub, tier)
+        except AnalysisError as e:
+            # fail closed, but let violations this check has found itself be reported first (see finish)
+            cache[key] = e
+            run.deferred_errors.append("imported rules %s: %s" % (sorted(want), e))
+            return None
+        finally:
+            _IMPORT_DEPTH -= 1
+        cache[key] = sub
     for v in sub.violations:
         if v["rule"] in want and (only is None or only(v["construct"])):
             run.fail(R, "%s:%s" % (v["rule"], v["construct"]), v["message"], v["loc"])
